@@ -143,8 +143,10 @@ pub fn run(args: &Args) {
         out.ev(json!({"ev":"reset","m": if m128 {128} else {48}, "embedded": embedded}));
         // paging-heavy and memory-heavy histories alternate; lock bit is rare in some of them
         let lock_rare = h % 3 != 0;
-        for _ in 0..len {
-            match r.below(10) {
+        for i in 0..len {
+            // the first steps of a history come before any paging write: the power-on map (bank 0 at 0xC000, ROM 0) is
+            // probed with writes and reads through every window
+            match if i < 12 { 4 + r.below(6) } else { r.below(10) } {
                 0..=2 => {
                     let mut v = r.u8();
                     if lock_rare && r.chance(9, 10) {
